@@ -248,6 +248,7 @@ class Wtp:
 
     __slots__ = (
         "db_path",  # Database path
+        "db_path_is_temporary",  # True if create_db() made up the path
         "db_conn",  # Database connection
         "cookies",  # Mapping from magic cookie -> expansion data
         "debugs",  # List of debug messages (cleared for each new page)
@@ -389,12 +390,14 @@ class Wtp:
     def create_db(self) -> None:
         from .wikidata import init_wikidata_cache
 
+        self.db_path_is_temporary = False
         if self.db_path is None:
             temp_file = tempfile.NamedTemporaryFile(
                 prefix="wikitextprocessor_tempdb", delete=False
             )
             self.db_path = Path(temp_file.name)
             temp_file.close()
+            self.db_path_is_temporary = True
 
         if self.backup_db_path.exists():
             self.db_path.unlink(True)
@@ -449,7 +452,10 @@ class Wtp:
         assert self.db_path
         self.db_conn.commit()
         self.db_conn.close()
-        if self.db_path.parent.samefile(Path(tempfile.gettempdir())):
+        if self.db_path_is_temporary:
+            # Only the throw-away database this context has created itself;
+            # a file that was passed in may be shared with other contexts,
+            # wherever it lies.
             for path in self.db_path.parent.glob(self.db_path.name + "*"):
                 # also remove SQLite -wal and -shm file
                 path.unlink(True)
